@@ -134,7 +134,7 @@ const EXTERN_MAX_DEPTH: u32 = 6;
 
 impl<'tcx> Cx<'tcx> {
     fn path(&self, did: DefId) -> String {
-        let s = ty::print::with_no_trimmed_paths!(self.tcx.def_path_str(did));
+        let s = ty::print::with_no_visible_paths!(ty::print::with_no_trimmed_paths!(self.tcx.def_path_str(did)));
         if did.is_local() {
             format!("{}::{}", self.crate_name, s)
         } else {
@@ -143,7 +143,7 @@ impl<'tcx> Cx<'tcx> {
     }
 
     fn path_with_args(&self, did: DefId, args: GenericArgsRef<'tcx>) -> String {
-        let s = ty::print::with_no_trimmed_paths!(self.tcx.def_path_str_with_args(did, args));
+        let s = ty::print::with_no_visible_paths!(ty::print::with_no_trimmed_paths!(self.tcx.def_path_str_with_args(did, args)));
         if did.is_local() {
             format!("{}::{}", self.crate_name, s)
         } else {
